@@ -14,10 +14,13 @@
          _canonic_ring, atoms_rings / atoms_rings_sizes / the ring marks of calc_labels, aromatic_rings; the selection phase
          (_rings_filter, _connected_rings, _is_condensed_ring, _get_unique_chord) is modelled and tied by correspondence,
          proved: it returns n_sssr rings of the candidate stream.
+     (A') the WHOLE perception is modelled end to end (sssr_model, set orders as an oracle input) and tied by correspondence;
+         for every oracle the candidates with >= 3 atoms are simple cycles of the graph, and under the first-phase side
+         condition the modelled sssr is accepted by the checker.
    What is NOT a theorem: that the implementation's sssr IS accepted / minimum for every molecule (false: recorded gap
    families; every output is run through the checker and the certificate instead), numbering / insertion-order independence of
    sssr's ring sizes in general (it is a theorem for minimum cycle bases, hence holds for every certified pair of molecules), "in_ring <-> lies on a cycle" (search against a bridge finder);
-   _bfs/_make_pid/_c_set are not modelled. *)
+   that the path tables are always well formed / the candidate stream always sorted (evaluated per molecule: pid_ok). *)
 From Coq Require Import ZArith List Bool Permutation.
 From Model Require Import PyBase Graph Rings RingsFilter RingsGen RingsGenSpec.
 From Proofs Require Import RingsProofs RingsMcb RingsRank RingsExt RingsDim RingsFund RingsMin RingsHorton RingsSizes RingsIso RingsEquiv RingsFilterProofs RingsGenProofs RingsGenWalks.
